@@ -116,7 +116,7 @@ def fmt_exc(e):
                                                     hx(bytes(e.requested_key)), pre)
     if isinstance(e, MissingTraversalNode):
         return "exn MissingTraversalNode %s %s" % (hx(bytes(e.missing_node_hash)), nibstr(e.nibbles_traversed))
-    return "exn " + type(e).__name__
+    return "exn " + common.exc_name(e)
 
 
 def fmt_db(db):
@@ -278,7 +278,7 @@ class HexRunner:
                 v = self.trie.get(k)
                 out = "v " + hx(v)
             except Exception as e:  # noqa
-                out = "exn " + type(e).__name__
+                out = "exn " + common.exc_name(e)
             self.res.emit("hx.rrget %s" % hx(k), out)
         self.res.tags.add("raw-level-history-tied")
 
